@@ -139,6 +139,7 @@ def state_writes(fi: FuncInfo) -> List[Tuple[str, ast.AST]]:
     if is_static and fi.cls is not None and fi.name in ("forward", "backward") and fn.args.args:
         params_all.discard(fn.args.args[0].arg)
     alias: Dict[str, str] = {}
+    galias: Dict[str, str] = {}
     for nm, ds in fdefs.items():
         if len(ds) != 1 or nm in params_all or ds[0] is None:
             continue
@@ -148,6 +149,8 @@ def state_writes(fi: FuncInfo) -> List[Tuple[str, ast.AST]]:
         r0 = _root_name(d)
         if isinstance(d, ast.Attribute) and isinstance(r0, ast.Name) and (r0.id in selfish or (r0.id in params_all and r0.id not in selfish)):
             alias[nm] = ast.unparse(d)
+        elif isinstance(d, ast.Name) and d.id in modlevel and d.id not in loc and d.id not in imported:
+            galias[nm] = d.id               # `options = _DEFAULTS`: the local IS the module-level object
 
     def classify_target(t: ast.AST, node: ast.AST, mut: str = ""):
         root = _root_name(t)
@@ -155,6 +158,9 @@ def state_writes(fi: FuncInfo) -> List[Tuple[str, ast.AST]]:
             out.append(("clsattr:%s%s" % (ast.unparse(t).replace(" ", ""), mut), node))     # type(self).X = ...: class-level state
             return
         if not isinstance(root, ast.Name):
+            return
+        if root.id in galias and (isinstance(t, ast.Subscript) or mut):
+            out.append(("global-mut:%s%s (via local alias %s)" % (galias[root.id], mut, root.id), node))
             return
         if root.id in alias and (isinstance(t, ast.Subscript) or mut):
             tgt = alias[root.id]
@@ -229,7 +235,7 @@ def state_writes(fi: FuncInfo) -> List[Tuple[str, ast.AST]]:
             if fnm in ("setattr", "delattr", "object.__setattr__", "object.__delattr__") and n.args:
                 out.append(("%s:%s" % (fnm.split(".")[-1].strip("_"), ast.unparse(n.args[0])), n))
             elif isinstance(n.func, ast.Attribute) and n.func.attr in MUT_METHODS and isinstance(_root_name(n.func.value), ast.Name) and \
-                    (_root_name(n.func.value).id in alias or (_root_name(n.func.value).id in params_all and _root_name(n.func.value).id not in selfish)):
+                    (_root_name(n.func.value).id in alias or _root_name(n.func.value).id in galias or (_root_name(n.func.value).id in params_all and _root_name(n.func.value).id not in selfish)):
                 classify_target(n.func.value, n, mut=".%s()" % n.func.attr)
             elif isinstance(n.func, ast.Attribute) and n.func.attr in MUT_METHODS:
                 recv = n.func.value
@@ -428,10 +434,48 @@ def none_by_truthiness(model: Model, R: RuleResult, files: Set[str]) -> int:
     """An optional parameter (default None) is resolved with an `is None` test.  A truthiness test (`x or default`, `if not x`) also
     replaces every *legal falsy* value - 0, 0.0, "", an empty container, a falsy callable object - by the default, silently."""
     n = 0
+    # optional-ness flows to callees: a parameter that receives a caller's optional parameter is optional too
+    optmap: Dict[str, Set[str]] = {fi.fq: _optional_params(fi) for fi in model.all_functions()}
+    changed = True
+    rounds = 0
+    while changed and rounds < 4:
+        changed = False
+        rounds += 1
+        for fi in model.all_functions():
+            mine = optmap[fi.fq]
+            if not mine:
+                continue
+            for c in own_nodes(fi.node):
+                if not isinstance(c, ast.Call):
+                    continue
+                r = model.resolve_expr(fi.module, c.func)
+                callee = None
+                skip = 0
+                if r and r[0] == "func":
+                    callee = r[1]
+                    skip = 1 if callee.cls is not None and not any(ast.unparse(d) == "staticmethod" for d in callee.node.decorator_list) else 0
+                elif r and r[0] == "class":
+                    callee = r[1].find_method("__init__")
+                    skip = 1
+                if callee is None:
+                    continue
+                ps = callee.params()[skip:]
+                got = optmap.setdefault(callee.fq, set())
+                for i, a_ in enumerate(c.args):
+                    if isinstance(a_, ast.Name) and a_.id in mine and i < len(ps) and ps[i] not in got:
+                        ann = next((x.annotation for x in callee.node.args.args if x.arg == ps[i]), None)
+                        if ann is not None and "bool" in ast.unparse(ann):
+                            continue
+                        got.add(ps[i])
+                        changed = True
+                for k in c.keywords:
+                    if k.arg and isinstance(k.value, ast.Name) and k.value.id in mine and k.arg in callee.all_params() and k.arg not in got:
+                        got.add(k.arg)
+                        changed = True
     for fi in model.all_functions():
         if fi.module.relpath not in files:
             continue
-        op = _optional_params(fi)
+        op = optmap.get(fi.fq, set())
         if not op:
             continue
         for node in own_nodes(fi.node):
@@ -445,7 +489,9 @@ def none_by_truthiness(model: Model, R: RuleResult, files: Set[str]) -> int:
                     t = t.operand
                 if isinstance(t, ast.Name) and t.id in op:
                     # re-bound to a bool / non-optional value before this test?  (flow-insensitive: any re-binding exempts)
-                    if any(isinstance(x, ast.Name) and x.id == t.id and isinstance(x.ctx, ast.Store) for x in own_nodes(fi.node)):
+                    here = enclosing_stmt(node)
+                    if any(isinstance(x, ast.Name) and x.id == t.id and isinstance(x.ctx, ast.Store) and enclosing_stmt(x) is not here
+                           and x.lineno < here.lineno for x in own_nodes(fi.node)):
                         continue
                     R.bad(fi, enclosing_stmt(node), "optional parameter `%s` is tested by truthiness: a legal falsy value (0, 0.0, \"\", an empty or falsy object) is "
                           "silently replaced by the default / treated as absent; use `is None`" % t.id)
